@@ -289,17 +289,17 @@ def guarded(ctx: Ctx, check_case):
     return w
 
 
-def run_systematic(ctx: Ctx, cases, check_case, keep_one_in=1, label="systematic"):
+def run_systematic(ctx: Ctx, cases, check_case, keep_one_in=1, label="systematic", presharded=False):
     """Deterministic enumeration tier: `cases` is an iterable of JSON cases; this shard takes
     every nshards-th one, optionally thinned to one in `keep_one_in` by a hash of
     (VERIF_SEED, index) so that different seeds cover different slices."""
     n = 0
     for idx, case in enumerate(cases):
-        if idx % ctx.nshards != ctx.shard:
+        if not presharded and idx % ctx.nshards != ctx.shard:
             continue
         k = keep_one_in(case) if callable(keep_one_in) else keep_one_in
         if k > 1:
-            h = int(hashlib.sha256(f"{ctx.seed}:{label}:{idx}".encode()).hexdigest()[:8], 16)
+            h = int(hashlib.sha256(f"{ctx.seed}:{label}:{ctx.shard if presharded else 0}:{idx}".encode()).hexdigest()[:8], 16)
             if h % k:
                 continue
         n += 1
